@@ -37,7 +37,7 @@ FAMS = ["single:conv@8", "single:dw@8", "single:maxpool@8", "single:avgpool@8", 
         "single:mean_big@8", "single:pad_pool@8", "single:pad_pool@8", "single:slice_masks@8", "single:dw_mult@8", "single:conv_1d@8", "ew_chain", "concat_split",
         "single:exp@8", "single:rsqrt@8", "rewrite_patterns", "rewrite_patterns",
         "single:conv_groups@8", "single:conv_groups@8", "single:pool_global_stride@8",
-        "single:ew_self@8", "single:concat_dup@8", "single:ew_bcast2@8", "single:split_partial@8", "single:reshape_fan@8"]
+        "single:ew_self@8", "single:concat_dup@8", "single:ew_bcast2@8", "single:split_partial@8", "single:reshape_fan@8", "cpu_fan", "cpu_fan", "single:resize_hp16@8"]
 if os.environ.get("VERIF_C01_FAMS"):        # development aid: restrict the generated part to some families
     FAMS = os.environ["VERIF_C01_FAMS"].split(",")
 
@@ -410,12 +410,56 @@ def rewrite_decisions(res, tier, okx):
             "decisions (implementation, model) -> count": {"%d,%d" % k: v for k, v in sorted(dec.items())}}
 
 
+def widened_kernels(res, tier, okx):
+    """correspondence of model/Rewrites.v widened2 / hw_dilation with fixup_dilation_gt2 (run on operators that Vela's own
+    reader built): the kernel plane the code writes, its shape and the hardware dilation it sets"""
+    import tempfile
+    n = 120 if tier == "quick" else 2400
+    rng = random.Random("c01dil/%d" % vlib.seed())
+    cases = []
+    while len(cases) < n:
+        kh, kw = rng.choice([1, 2, 3, 3]), rng.choice([1, 2, 3, 3])
+        dh, dw = rng.choice([1, 2, 3, 4, 5, 6, 7, 8]), rng.choice([1, 2, 3, 4, 5, 6, 8, 9])
+        if max(dh, dw) <= 2:
+            continue
+        u8 = 1 if rng.random() < 0.4 else 0
+        cases.append([rng.randrange(4, 12), rng.randrange(4, 12), rng.choice([1, 4, 8]), rng.choice([1, 4, 8]), kh, kw, dh, dw, u8,
+                      1 if rng.random() < 0.3 else 0])
+    tmp = tempfile.mkdtemp(prefix="c01dil_", dir=vlib.BUILD)
+    cj, oj = os.path.join(tmp, "cases.json"), os.path.join(tmp, "out.json")
+    json.dump(cases, open(cj, "w"))
+    p = subprocess.run([vlib.PY, os.path.join(vlib.ROOT, "tools", "rewrite_worker.py"), cj, oj, "dilation"], env=vlib.py_env({"VERIF_TMP": tmp}),
+                       capture_output=True, text=True, timeout=3000)
+    if p.returncode != 0 or not os.path.exists(oj):
+        res.violation({"machinery": "rewrite worker (dilation)"}, {"stderr": p.stderr[-1500:]},
+                      "C01: fixup_dilation_gt2 could not be run on generated convolutions", no_input=True)
+        return {"cases": 0}
+    impl = json.load(open(oj))
+    shutil.rmtree(tmp, ignore_errors=True)
+    model = models.run("widen_kernel", [[c[4], c[5], c[6], c[7], o["fill"]] + o["before"] for c, o in zip(cases, impl)]) if okx else []
+    bad = 0
+    fills = collections.Counter()
+    for c, o, m in zip(cases, impl, model):
+        fills["zero" if o["fill"] == 0 else "non-zero"] += 1
+        if o["after"] != m and bad < 5:
+            bad += 1
+            res.violation({"kind": "widened_kernel", "case": c},
+                          {"case [h, w, c, oc, kh, kw, dil_h, dil_w, uint8, depthwise]": c, "weights zero point": o["fill"],
+                           "kernel plane (in 0, out 0) before": o["before"],
+                           "implementation [hw dilation h, w, new kernel h, w, plane...]": o["after"], "model": m},
+                          "C01: fixup_dilation_gt2 on a %dx%d kernel with dilation %dx%d (weights zero point %d) writes a kernel / hardware dilation "
+                          "other than the proved one (props/C01.v widened_kernel_is_dilation): the emitted convolution is not the "
+                          "dilated convolution of the source" % (c[4], c[5], c[6], c[7], o["fill"]))
+    return {"cases": len(model), "weights_zero_point": dict(fills)}
+
+
 def run(tier):
     res = vlib.Result("C01", tier, "other")
     b = vlib.build_property("C01")
     okx, xlog = vlib.build_extraction("npuExec")
     okm, _ = vlib.build_extraction()
     rw_cov = rewrite_decisions(res, tier, okm and b["ok"])
+    rw_cov["widened_kernels"] = widened_kernels(res, tier, okm and b["ok"])
     n = 440 if tier == "quick" else 3200
     max_macs = 1200000 if tier == "quick" else 30000000
     rng = random.Random("c01/%d" % vlib.seed())
